@@ -114,6 +114,12 @@ def run(ctx):
                       "Err(ParseLine) is not guarded by `parts.len() != 2`", body.span_of(p.blocks[-1]))
     ctx.check(found_parseline, "D3-PARSELINE", FROMSTR_SUM, "present", "ParseLine error path exists",
               "no path returns Err(ParseLine(..)): a line without '=' is not reported as malformed")
+    # ---- D1-EVERY-LINE: no line is skipped: every iteration of the line loop that continues has stored a variable (anything else returned an error)
+    lb = [p for p in paths if p.end[0] == "back"]
+    idle = [p for p in lb if not any(e.kind == "call" and e.path.startswith("summary::Summary::") and e.path.split("::")[-1].startswith(("set_", "push_")) for e in p.events)]
+    ctx.check(bool(lb) and not idle, "D1-EVERY-LINE", FROMSTR_SUM, "no-line-skipped", "each line sets a variable or is an error (%d loop paths)" % len(lb),
+              "a line can be passed over without setting a variable and without an error (e.g. blank lines are skipped): the parser accepts text that is not a well-formed entry%s"
+              % ((" (condition: %s)" % term_str(idle[0].conds()[-1].term)[:80]) if idle and idle[0].conds() else ""), fn_span(body))
     errprop(ctx, FROMSTR_SUM, paths, body, rule="D3-ERRPROP", no_effects_after_error=("::set_", "::push_"), floor=2)
 
     # ---- D2 required sets
